@@ -412,8 +412,11 @@ class MsgPackDeserializer {
         auto savedKey = stringBuffer_.save();
 
         member = object->addMember(savedKey, resources_);
-        if (!member)
+        if (!member) {
+          // give back the reference taken by save()
+          resources_->dereferenceString(savedKey->data);
           return DeserializationError::NoMemory;
+        }
       } else {
         member = 0;
       }
